@@ -665,7 +665,7 @@ M.append(dict(id='own4var-additem-helper-no-lock', patch=_os.path.join(_P, 'own4
 _EQ4_PROPS = {'A1': 'C01,C02,C03,C10,C19', 'A2': 'C04,C03,C01,C12', 'A3': 'C05,C06,C07,C08,C09,C11,C13', 'A4': 'C05,C06,C07,C08,C09,C10,C11,C13',
               'A5': 'C14,C03,C10,C12,C04,C02', 'A6': 'C14,C05,C06,C07,C08,C09,C11', 'A7': 'C15,C16,C09', 'A8': 'C17,C18,C08,C20', 'A9': 'C12,C13,C08',
               'A10': 'C02,C03,C12,C20,C04'}
-_EQ4_OPEN = ('A2-e3',)
+_EQ4_OPEN = ()
 for _a, _p in _EQ4_PROPS.items():
     for _e in ('e1', 'e2', 'e3', 'e4'):
         _f = _os.path.join(_P, 'eqagents4', '%s-%s.diff' % (_a, _e))
@@ -675,3 +675,4 @@ M.append(dict(id='own4var-impl-append-forgets-tail', patch=_os.path.join(_P, 'ow
 M.append(dict(id='own4var-localguard-no-decrement', patch=_os.path.join(_P, 'own4var', 'localguard-no-decrement.diff'), props='C11,C07', expect='fire', rule=None))
 M.append(dict(id='own4var-splicehelper-no-sort', patch=_os.path.join(_P, 'own4var', 'splicehelper-no-sort.diff'), props='C13', expect='fire', rule='C13.S1'))
 m('hasanylistener-wrong-polarity', 'eventdispatcher.h', "			return ! callableList->empty();", "			return callableList->empty();", 'C04', 'fire', 'C04.F')
+M.append(dict(id='own4var-foundhelper-sets-false', patch=_os.path.join(_P, 'own4var', 'foundhelper-sets-false.diff'), props='C01', expect='fire', rule='C01.H'))
